@@ -144,3 +144,39 @@ func Harness_C09_SupplyAndMappingFrame() {
 		verifAssert("supply changes only through credited deposits and withdrawals", sup1.Equal(sup0))
 	}
 }
+
+// C09 / C04: a withdrawal initiated from inside a deposit hook (hook payloads are ordinary signed transactions and
+// may carry the module's own messages) is a recorded withdrawal like any other: the L2 sequence it consumes is
+// announced by exactly one withdrawal event in the transaction, so that it can be proven on L1.
+func Harness_C09_WithdrawalInsideHook() {
+	paramsBounds()
+	verifConfig("len:BridgeExecutors", 1)
+	verifConfig("hook.clean", 1) // bound: the hook transaction decodes, passes the ante chain and carries exactly the withdrawal
+	verifConfig("hookmsgs", 1)
+	k, ms, ctx := setup()
+	req := symFinalizeDeposit()
+	wd := &types.MsgInitiateTokenWithdrawal{Sender: verifSymStr("wd.sender"), To: verifSymStr("wd.to"),
+		Amount: sdk.Coin{Denom: verifSymStr("wd.denom"), Amount: verifSymInt("wd.amount")}}
+	verifOnRoute(wd, routed(func(c sdk.Context) error { _, err := ms.InitiateTokenWithdrawal(c, wd); return err }))
+	next, l2 := k.nextL1(ctx), k.nextL2(ctx)
+	verifAssume(next < 1<<62 && l2 < 1<<62)
+	verifAssume(req.Sequence == next && k.isExecutor(ctx, req.Sender))
+	verifAssume(req.Validate(k.authKeeper.AddressCodec()) == nil && wd.Validate(k.authKeeper.AddressCodec()) == nil)
+	_, toOK := k.addr(req.To)
+	verifAssume(toOK && req.Amount.Amount.IsPositive())
+	nW := len(eventsOf(ctx, types.EventTypeInitiateTokenWithdrawal))
+	err, pan := runMsg(ctx, func(c sdk.Context) error { _, e := ms.FinalizeTokenDeposit(c, req); return e })
+	if !ok(err, pan) {
+		return
+	}
+	verifReach("deposit with hook processed")
+	evs := eventsOf(ctx, types.EventTypeInitiateTokenWithdrawal)[nW:]
+	l2b := k.nextL2(ctx)
+	verifNote("finalize events", eventsOf(ctx, types.EventTypeFinalizeTokenDeposit))
+	verifNote("withdrawal events", evs)
+	verifNote("L2 sequences consumed", l2b-l2)
+	if l2b > l2 {
+		verifReach("a withdrawal was recorded")
+	}
+	verifAssert("every L2 sequence consumed in the transaction is announced by one withdrawal event", l2b == l2+uint64(len(evs)))
+}
